@@ -65,11 +65,149 @@ nsplits = Contract(
     drop=["if len(nsplits) != df.npartitions"],
 )
 
-CONTRACTS = [clean, compute_boundaries, nsplits]
+# ---- RepartitionToMore._layer: the task graph that splits input partition i into nsplits[i] pieces
+Name = T.U("Name")
+PKey = T.Tup(Name, T.Int)                       # (collection name, partition number)
+Fn_ = T.U("Fn")
+TaskV = T.Union("RepartTask", {"alias": PKey, "call": T.Tup(Fn_, PKey, T.Int)})   # (df._name, i) | (getitem, (split, i), jj) | (split_evenly, (df, i), k)
+Dsk = T.Map(PKey, TaskV)
+FrameN = T.Rec("FrameWithName", {"_name": Name})
+MoreL = T.Rec("RepartitionToMoreL", {"frame": FrameN, "_name": Name, "_nsplits": SI})
+_OUT = "psum(self._nsplits, i) + jj"
+
+more_layer = Contract(
+    MODULE, "RepartitionToMore._layer",
+    params={"self": MoreL},
+    locals={"dsk": Dsk, "nsplits": SI, "df": FrameN, "new_name": Name, "split_name": Name, "j": T.Int},
+    free={"split_evenly": Fn_, "getitem": Fn_},
+    returns=Dsk,
+    requires=[("one-positive-count-per-input-partition (RepartitionToMore._nsplits)", "len(self._nsplits) >= 1 and all(self._nsplits[q] >= 1 for q in range(len(self._nsplits)))")],
+    ensures=[
+        ("C44-output-partition-numbers-are-0..total-1", "forall(lambda n: (result_has(result, self._name, n)) == (0 <= n and n < sum(self._nsplits)))"),
+        ("C44-piece-jj-of-input-partition-i-is-output-number-psum(i)+jj, in order",
+         "forall(lambda i, jj: implies(0 <= i and i < len(self._nsplits) and 0 <= jj and jj < self._nsplits[i], "
+         f"result_has(result, self._name, {_OUT}) and (is_alias_of(result_at(result, self._name, {_OUT}), self.frame._name, i) if self._nsplits[i] == 1 else "
+         f"(is_piece(result_at(result, self._name, {_OUT}), getitem, split_name_of(self._name), i, jj) and result_has(result, split_name_of(self._name), i)"
+         " and is_piece(result_at(result, split_name_of(self._name), i), split_evenly, self.frame._name, i, self._nsplits[i])))))"),
+    ],
+    loops={
+        0: dict(index="i0", invariant=[
+            ("next-output-number", "j == psum(nsplits, i0) and j >= 0"),
+            ("outputs-so-far", "forall(lambda n: (result_has(dsk, new_name, n)) == (0 <= n and n < j))"),
+            ("pieces-so-far",
+             "forall(lambda i, jj: implies(0 <= i and i < i0 and 0 <= jj and jj < nsplits[i], "
+             "result_has(dsk, new_name, psum(nsplits, i) + jj) and (is_alias_of(result_at(dsk, new_name, psum(nsplits, i) + jj), df._name, i) if nsplits[i] == 1 else "
+             "(is_piece(result_at(dsk, new_name, psum(nsplits, i) + jj), getitem, split_name, i, jj) and result_has(dsk, split_name, i)"
+             " and is_piece(result_at(dsk, split_name, i), split_evenly, df._name, i, nsplits[i])))))"),
+            ("splits-so-far", "forall(lambda n: implies(result_has(dsk, split_name, n), 0 <= n and n < i0))"),
+            ("names", "split_name == split_name_of(new_name) and split_name != new_name and same(nsplits, self._nsplits) and new_name == self._name and same(df, self.frame)"),
+        ], begin=["assert_(psum(nsplits, i0 + 1) == psum(nsplits, i0) + nsplits[i0], 'unfold')"]),
+        1: dict(index="j0", invariant=[
+            ("next-output-number", "j == psum(nsplits, i) + j0 and 0 <= j0 and j0 <= k"),
+            ("outputs-so-far", "forall(lambda n: (result_has(dsk, new_name, n)) == (0 <= n and n < j))"),
+            ("pieces-so-far",
+             "forall(lambda i2, jj: implies(0 <= i2 and i2 < i and 0 <= jj and jj < nsplits[i2], "
+             "result_has(dsk, new_name, psum(nsplits, i2) + jj) and (is_alias_of(result_at(dsk, new_name, psum(nsplits, i2) + jj), df._name, i2) if nsplits[i2] == 1 else "
+             "(is_piece(result_at(dsk, new_name, psum(nsplits, i2) + jj), getitem, split_name, i2, jj) and result_has(dsk, split_name, i2)"
+             " and is_piece(result_at(dsk, split_name, i2), split_evenly, df._name, i2, nsplits[i2])))))"),
+            ("this-split", "result_has(dsk, split_name, i) and is_piece(result_at(dsk, split_name, i), split_evenly, df._name, i, k) and "
+                           "forall(lambda jj: implies(0 <= jj and jj < j0, result_has(dsk, new_name, psum(nsplits, i) + jj) and is_piece(result_at(dsk, new_name, psum(nsplits, i) + jj), getitem, split_name, i, jj)))"),
+            ("splits-so-far", "forall(lambda n: implies(result_has(dsk, split_name, n), 0 <= n and n <= i))"),
+        ]),
+    },
+    note="f\"split-{new_name}\" is modelled as an uninterpreted name distinct from new_name; split_evenly / getitem are opaque task heads",
+)
+
+# ---- RepartitionToFewer._layer: output partition i concatenates the input partitions boundaries[i] .. boundaries[i+1]-1
+ConcatTask = T.Tup(Fn_, T.Seq(PKey))
+FewerDsk = T.Map(PKey, ConcatTask)
+FewerL = T.Rec("RepartitionToFewerL", {"frame": FrameN, "_name": Name, "_partitions_boundaries": SI})
+
+fewer_layer = Contract(
+    MODULE, "RepartitionToFewer._layer",
+    params={"self": FewerL},
+    locals={"new_partitions_boundaries": SI},
+    free={"_concat": Fn_},
+    returns=FewerDsk,
+    requires=[("boundaries (RepartitionToFewer._compute_partition_boundaries)", "len(self._partitions_boundaries) >= 2 and all(self._partitions_boundaries[q] <= self._partitions_boundaries[q + 1] for q in range(len(self._partitions_boundaries) - 1))")],
+    ensures=[
+        ("C44-one-output-partition-per-pair-of-boundaries", "forall(lambda k: (k in result.keys()) == (k[0] == self._name and 0 <= k[1] and k[1] < len(self._partitions_boundaries) - 1), PKeyT)"),
+        ("C44-output-i-concatenates-exactly-the-inputs-between-its-boundaries-in-order",
+         "forall(lambda i: implies(0 <= i and i < len(self._partitions_boundaries) - 1, result[(self._name, i)][0] == _concat"
+         " and len(result[(self._name, i)][1]) == self._partitions_boundaries[i + 1] - self._partitions_boundaries[i]"
+         " and forall(lambda q: implies(0 <= q and q < self._partitions_boundaries[i + 1] - self._partitions_boundaries[i], result[(self._name, i)][1][q] == (self.frame._name, self._partitions_boundaries[i] + q)))))"),
+    ],
+    note="with boundaries[0] == 0, boundaries[-1] == npartitions and lemma_tiling every input partition lands in exactly one output, in order",
+)
+
+CONTRACTS = [clean, compute_boundaries, nsplits, more_layer, fewer_layer]
+
+
+def _mk_key(n, i):
+    return PKey.mk(n, i)
+
+
+def spec_result_has(eng, st, d, name, n):
+    import z3
+    from vf.core import SV
+    return SV(z3.Select(Dsk.dom(d.t), _mk_key(name.t, eng.to_int(n))), T.Bool)
+
+
+def spec_result_at(eng, st, d, name, n):
+    import z3
+    from vf.core import SV
+    return SV(z3.Select(Dsk.valarr(d.t), _mk_key(name.t, eng.to_int(n))), TaskV)
+
+
+def spec_is_alias_of(eng, st, v, name, i):
+    import z3
+    from vf.core import SV
+    return SV(z3.And(TaskV.is_("alias", v.t), TaskV.proj("alias", v.t) == _mk_key(name.t, eng.to_int(i))), T.Bool)
+
+
+def spec_is_piece(eng, st, v, fn, name, i, jj):
+    import z3
+    from vf.core import SV
+    c = TaskV.alts["call"]
+    return SV(z3.And(TaskV.is_("call", v.t), TaskV.proj("call", v.t) == c.mk(fn.t, _mk_key(name.t, eng.to_int(i)), eng.to_int(jj))), T.Bool)
+
+
+_split_name = None
+
+
+def fstring_split(eng, node, st, want):
+    """f"split-{new_name}": a name derived from new_name (uninterpreted), different from it."""
+    import ast as _a
+    import z3
+    from vf.core import SV
+    vals = [v.value for v in node.values if isinstance(v, _a.FormattedValue)]
+    if len(vals) == 1:
+        a = eng.ev(vals[0], st)
+        if a.ty == Name:
+            f = z3.Function("split_name_of", Name.sort(), Name.sort())
+            st.assume(f(a.t) != a.t)
+            return SV(f(a.t), Name)
+    return None
+
+
+def spec_split_name_of(eng, st, n):
+    import z3
+    from vf.core import SV
+    f = z3.Function("split_name_of", Name.sort(), Name.sort())
+    st.assume(f(n.t) != n.t)
+    return SV(f(n.t), Name)
 
 
 def setup(eng):
     from vf.core import FuncVal
+    eng.spec_funcs["result_has"] = spec_result_has
+    eng.spec_funcs["result_at"] = spec_result_at
+    eng.spec_funcs["is_alias_of"] = spec_is_alias_of
+    eng.spec_funcs["is_piece"] = spec_is_piece
+    eng.spec_funcs["split_name_of"] = spec_split_name_of
+    eng.fstring_model = fstring_split
+    eng.mutable_records.update({"RepartitionToMoreL", "FrameWithName", "RepartitionToFewerL"})
+    eng.spec_types["PKeyT"] = PKey
     eng.funcs.update(LEMMA_FUNCS)
     eng.funcs["_clean_new_division_boundaries"] = FuncVal("_clean_new_division_boundaries", "contract", clean)
     eng.isinstance_static[("Seq<Int>", "list")] = True
